@@ -25,7 +25,8 @@
              lst     0 v4-only listener 127.0.0.1 | 1 v6-only [::1] | 2 dual-stack [::]
                      reached over IPv4 | 3 dual-stack reached over IPv6 |
                      4 wildcard 0.0.0.0 reached at 127.0.0.2
-             proto   0 UDP client | 1 TCP client | 2 TCP client, length prefix in two segments
+             proto   0 UDP client | 1 TCP client | 2 TCP client, length prefix in two segments |
+                     3 TCP client sending its query twice on one connection (corpus only)
              mask    bit k set = the upstream drops the (k+1)-th UDP transmission
              delay   every reply of the upstream is sent delay_ms after the query
              dup     1 = every reply is sent twice
@@ -249,7 +250,9 @@ Definition inb (lo hi x : N) : bool := (lo <=? x) && (x <=? hi).
 Definition spec_query (t0 : N) (q o : list N) : N :=
   match q, o with
   | [lst; proto; mask; delay; dup; special], [nresp; rcode; own; srcok; idok; utx; ttx] =>
-    if negb (nresp =? 1) then 3                      (* exactly one response *)
+    if (proto =? 3) && (nresp =? 1) then 102         (* known-finding class 2: the second query on a
+                                                        client TCP connection is never read *)
+    else if negb (nresp =? (if proto =? 3 then 2 else 1)) then 3   (* exactly one response per query *)
     else if negb (srcok =? 1) then 4                 (* from where it was sent to *)
     else if negb (idok =? 1) || (own =? 0) || ((rcode =? 0) && negb (own =? 1)) then 5   (* its own answer *)
     else if (proto =? 0) && (mask mod 16 =? 15) && negb (rcode =? SERVFAIL) then 6       (* silent upstream: SERVFAIL *)
@@ -264,7 +267,7 @@ Definition spec_query (t0 : N) (q o : list N) : N :=
 Definition model_query (t0 t0hi slack : N) (q : list N) : list N :=
   match q with
   | [lst; proto; mask; delay; dup; special] =>
-    if 0 <? proto then [0; 0; 0; 0; 1; 1]      (* utx in [0,0]; rcode 0 only; ttx in [1,1] *)
+    if 0 <? proto then [0; 0; 0; 0; 1; (if proto =? 3 then 2 else 1)]   (* utx in [0,0]; rcode 0 only; ttx in [1,1] *)
     else
       let '(lo, hi, may_to, may_an) := retry_bounds (t0 * MS) (t0hi * MS) (slack * MS) (mask mod 16) (delay * MS) in
       let rc_lo := if may_an then 0 else SERVFAIL in
@@ -285,7 +288,13 @@ Definition agree_query (t0 t0hi slack : N) (q o : list N) : bool :=
 
 Fixpoint first_viol (t0 : N) (qs os : list (list N)) : N :=
   match qs, os with
-  | q :: qr, o :: or => let p := spec_query t0 q o in if p =? 0 then first_viol t0 qr or else p
+  | q :: qr, o :: or => let p := spec_query t0 q o in if (p =? 0) || (100 <=? p) then first_viol t0 qr or else p
+  | _, _ => 0
+  end.
+(* known-finding classes are reported only when no other predicate fails in the batch *)
+Fixpoint first_known (t0 : N) (qs os : list (list N)) : N :=
+  match qs, os with
+  | q :: qr, o :: or => let p := spec_query t0 q o in if 100 <=? p then p - 100 else first_known t0 qr or
   | _, _ => 0
   end.
 Fixpoint first_diff (t0 t0hi slack : N) (idx : N) (qs os : list (list N)) : option (N * list N) :=
@@ -309,6 +318,7 @@ Definition check_batch (ts : list N) : list N :=
         if (t0 =? 0) || (t0hi <? t0) then v_bad else
         let p := first_viol t0 qs os in
         if negb (p =? 0) then v_viol p
+        else if negb (first_known t0 qs os =? 0) then v_known (first_known t0 qs os)
         else match first_diff t0 t0hi slack 0 qs os with
              | Some (idx, e) => v_diff (idx :: e)
              | None => v_ok (if existsb q_silent qs then 6 else if existsb q_lossy qs then 5 else 4)
